@@ -153,6 +153,7 @@ FIRING = [
     ("squeeze-signal-short", "jesse/indicators/squeeze_momentum.py", "    for i in range(len(momentum)):\n        previous = momentum[i - 1] if i > 0 else np.nan\n", "    for i in range(1, len(momentum)):\n        previous = momentum[i - 1]\n", ["C14"]),
     ("stoch-ma-on-nan-warm-up", "jesse/indicators/stochastic.py", "    k = _ma_after_warmup(stoch_val, slowk_period, slowk_matype)\n", "    k = ma(stoch_val, period=slowk_period, matype=slowk_matype, sequential=True)\n", ["C15"]),
     ("tsf-period-one", "jesse/indicators/tsf.py", "        if len(source) < period or period < 2:\n", "        if len(source) < period:\n", ["C14"]),
+    ("add-multiple-inner-chunk-refused", "jesse/store/state_candles.py", "        elif candles[0, 0] >= arr[0][0] and candles[-1, 0] < arr[-1][0]:\n", "        elif False and candles[0, 0] >= arr[0][0] and candles[-1, 0] < arr[-1][0]:\n", ["C20"]),
     ("dna-append-multiple-empty", "jesse/libs/dynamic_numpy_array/__init__.py", "        if len(items) == 0:\n            return\n", "", ["C18"]),
     ("dna-delete-raw-index", "jesse/libs/dynamic_numpy_array/__init__.py", "        if index < 0:\n            index = (self.index + 1) - abs(index)\n        if index > self.index or index < 0:\n            raise IndexError('list assignment index out of range')\n\n        self.array = np.delete", "        self.array = np.delete", ["C18"]),
 ]
